@@ -336,7 +336,7 @@ class Sandbox:
                     env[k] = str(v)
         return env
 
-    def garble(self, args, cwd, env=None, timeout=900, trace: Path | None = None, ident: str | None = None,
+    def garble(self, args, cwd, env=None, timeout=3000, trace: Path | None = None, ident: str | None = None,
                stdin=None, new_session=False, garble_bin: Path | None = None) -> Result:
         binp = garble_bin or self.garble_bin or build_garble("verif")
         e = dict(env or {})
@@ -346,7 +346,7 @@ class Sandbox:
             e["GARBLE_VERIF_ID"] = ident
         return run([binp] + list(args), cwd=cwd, env=self.env(e), timeout=timeout, stdin=stdin, new_session=new_session)
 
-    def go(self, args, cwd, env=None, timeout=900) -> Result:
+    def go(self, args, cwd, env=None, timeout=3000) -> Result:
         return run(["go"] + list(args), cwd=cwd, env=self.env(env), timeout=timeout)
 
     def tmp_leftovers(self) -> list:
@@ -647,6 +647,16 @@ def main_wrapper(fn):
     ap.add_argument("--seed", type=int, default=int(os.environ.get("VERIF_SEED", "1")))
     ap.add_argument("--replay", default=None)
     a = ap.parse_args()
+    if a.replay:
+        # replays/<ID>/<tier>-<seed>-<n>/ : show the recorded witness, then re-run the check with the
+        # tier and seed that produced it (all random choices derive from the seed, so the case recurs)
+        d = Path(a.replay)
+        w = d / "witness.json"
+        if w.exists():
+            print(w.read_text())
+        m = re.match(r"(quick|thorough)-(\d+)-\d+$", d.name)
+        if m:
+            a.tier, a.seed = m.group(1), int(m.group(2))
     try:
         rc = fn(a.tier, a.seed, a.replay) if fn.__code__.co_argcount >= 3 else fn(a.tier, a.seed)
     except Inconclusive as e:
